@@ -11,6 +11,7 @@ mod opts;
 mod mem;
 mod part;
 mod twin;
+mod lzma2w;
 mod cont;
 mod util;
 
@@ -153,6 +154,13 @@ fn main() {
         "TWIN" => {
             let mut rep = Report::new("TWIN", "cases = one call of the real function through its hook on generated arguments (extend_match: repetitive buffers, limits touching the physical end; normalize: table lengths around the SIMD width, offsets near i32::MAX; get_match_len_fast_reject: read_pos on the last bytes of the physical buffer, length limits 0/1/2/up to/beyond the end, windows of LZEncoder::new; decode_direct_bits: default dispatch and portable loop from explicit states, counts 0..40, buffer ending inside the run, code >= range, range at its extremes); non-trivial = non-empty argument; distinct = (function, size class, extension, touches-end)");
             twin::run_twins(&mut rep, &mut rng, thorough);
+            rep
+        }
+        "W2" => {
+            // own validation of Model/Lzma2Writer.lean: `vh W2 <quick|thorough> <seed> <outdir> [cases]`
+            let mut rep = Report::new("W2", "LZMA2Writer (fast mode) against the model lzma2FastBytes, byte for byte");
+            let n: u64 = args.get(5).and_then(|s| s.parse().ok()).unwrap_or(100);
+            lzma2w::run_lzma2w(&mut rep, &mut rng, n, thorough, args.get(6).map(|s| s == "check").unwrap_or(false));
             rep
         }
         "C02" => {
